@@ -12,7 +12,7 @@ pub fn def() -> PropDef {
     PropDef {
         info: PropInfo {
             id: "C15",
-            rule: "streams of 1-40 whole instructions: every supported opcode (and tail_call), all 16 values of both register nibbles, offsets incl. -32768, boundary-heavy and random immediates, lddw pairs with arbitrary halves, call kinds 0/1. Oracle: to_insn_vec under catch_unwind gives one entry per instruction (lddw merged); opc/dst/src/off equal the independent decoder's; imm equals the encoded immediate (lddw: lo | hi<<32); name equals the table mnemonic; desc, parsed by the harness's own parser of the assembler syntax, has a mnemonic that the documented table maps to this opcode and operands that denote the same values in every field the instruction uses (a 32-bit immediate may be printed as its two's-complement pattern). What disassemble() prints (stdout captured) must be exactly those texts, one per line. Long programs of up to 2^17 (+4) slots (2^19 in the thorough tier) with wide loads back to back from slot 0 or slot 1, before every multiple of 2^j, or scattered, go through both. Thorough tier additionally enumerates every opcode x all 65536 offsets. Non-trivial = stream containing a negative offset/immediate, a register >= r10 or an lddw; distinct by hash.",
+            rule: "streams of 1-40 whole instructions: every supported opcode (and tail_call), all 16 values of both register nibbles, offsets incl. -32768, boundary-heavy and random immediates, lddw pairs with arbitrary halves, call kinds 0/1. Oracle: to_insn_vec under catch_unwind gives one entry per instruction (lddw merged); opc/dst/src/off equal the independent decoder's; imm equals the encoded immediate (lddw: lo | hi<<32); name equals the table mnemonic; desc, parsed by the harness's own parser of the assembler syntax, has a mnemonic that the documented table maps to this opcode and operands that denote the same values in every field the instruction uses (a 32-bit immediate may be printed as its two's-complement pattern). What disassemble() prints (stdout captured) must be exactly those texts, one per line. Long programs of up to 2^17 (+4) slots (2^19 in the thorough tier) with wide loads back to back from slot 0 or slot 1, before every multiple of 2^j, or scattered, go through both; a few programs of 999,998-1,000,003 slots (the verifier's limit is not the disassembler's) with a wide load straddling slot 1,000,000 go through to_insn_vec; about one instruction in four repeats the one before it, half of those with another upper half. Thorough tier additionally enumerates every opcode x all 65536 offsets. Non-trivial = stream containing a negative offset/immediate, a register >= r10 or an lddw; distinct by hash.",
             assumptions: &["byte swaps with a width other than 16/32/64 have no rendering in the assembler syntax: only fields and absence of panic are checked for them", "xadd and tail_call have no assembler spelling: their text only needs to start with the name"],
         },
         run: run15,
@@ -25,7 +25,7 @@ pub fn def16() -> PropDef {
     PropDef {
         info: PropInfo {
             id: "C16",
-            rule: "same instruction-stream generator as C15 (about one instruction in seven repeats the one before it), half of the streams forced into the expressible/canonical class, the others with junk in unused fields (including register byte, offset and - in a third of them - a supported opcode byte in the second slot of a wide load) (assembler-expressible opcodes, unused fields zero, 32-bit immediates >= 0, any 64-bit value for lddw, byte-swap widths 16/32/64). The text is join(to_insn_vec().desc, newline) and, in a second stream, the captured stdout of disassemble(); long expressible programs of up to 2^17 (+4) slots (2^18 in the thorough tier) with wide loads at every kind of position go through both. Oracle: class 1 => assemble(text) == Ok(original bytes); other programs => if assemble() accepts the text the result equals the canonical form computed by the harness (same opcodes, same used-field values, unused fields cleared), an Err is fine. Non-trivial = class-1 program of >= 2 instructions, or a class-2 program the assembler accepted; distinct by hash.",
+            rule: "same instruction-stream generator as C15 (about one instruction in four repeats the one before it, half of those with another upper half), half of the streams forced into the expressible/canonical class, the others with junk in unused fields (including register byte, offset and - in a third of them - a supported opcode byte in the second slot of a wide load) (assembler-expressible opcodes, unused fields zero, 32-bit immediates >= 0, any 64-bit value for lddw, byte-swap widths 16/32/64). The text is join(to_insn_vec().desc, newline) and, in a second stream, the captured stdout of disassemble(); long expressible programs of up to 2^17 (+4) slots (2^18 in the thorough tier) with wide loads at every kind of position go through both. Oracle: class 1 => assemble(text) == Ok(original bytes); other programs => if assemble() accepts the text the result equals the canonical form computed by the harness (same opcodes, same used-field values, unused fields cleared), an Err is fine. Non-trivial = class-1 program of >= 2 instructions, or a class-2 program the assembler accepted; distinct by hash.",
             assumptions: &["canonical form = harness/vrun/src/isa.rs::uses_of table"],
         },
         run: run16,
@@ -48,13 +48,18 @@ fn sinsn() -> impl Strategy<Value = SInsn> {
         .prop_map(|(opc_sel, regs, off, imm, hi)| SInsn { opc_sel, regs, off, imm, hi })
 }
 
-/// About one instruction in seven is a copy of the one before it (identical lines, identical
-/// wide loads back to back).
+/// About one instruction in eight is a copy of the one before it (identical lines, identical
+/// wide loads back to back), another one in eight a copy with its own upper half.
 fn with_repeats(max: usize) -> impl Strategy<Value = Vec<SInsn>> {
-    (prop::collection::vec(sinsn(), 1..max), prop::collection::vec(0u8..7, max)).prop_map(|(mut s, rep)| {
+    (prop::collection::vec(sinsn(), 1..max), prop::collection::vec(0u8..8, max)).prop_map(|(mut s, rep)| {
         for k in 1..s.len() {
             if rep[k] == 0 {
                 s[k] = s[k - 1].clone();
+            } else if rep[k] == 1 {
+                // same first slot, another upper half (only a wide load shows the difference)
+                let hi = s[k].hi;
+                s[k] = s[k - 1].clone();
+                s[k].hi = hi;
             }
         }
         s
@@ -446,6 +451,26 @@ fn run15(ctx: &Ctx) {
         }
         (v, if want_case { long_json(spec) } else { Value::Null })
     });
+    // a few programs around 1,000,000 slots (one or two per worker)
+    ctx.shrink_iters.set(8);
+    let cases = ctx.share(ctx.tier.pick(16, 96));
+    ctx.search("huge", "long", cases, huge_spec(), |spec, want_case| {
+        let v = check_disasm(&long_bytes(spec));
+        if !want_case {
+            let mut st = ctx.stats();
+            st.eval();
+            st.class(if spec.total > 1_000_000 { "long:>1,000,000-slots" } else { "long:999,998-1,000,000-slots" });
+            st.nontrivial(fnv_str(&format!("{spec:?}")));
+        }
+        (v, if want_case { long_json(spec) } else { Value::Null })
+    });
+}
+
+/// Programs just below / at / just above 1,000,000 slots - the verifier's limit, which is not a
+/// limit of the disassembler ("every byte string made of whole instructions") - with wide loads
+/// on both parities, so that one straddles slot 1,000,000.
+fn huge_spec() -> impl Strategy<Value = LongSpec> {
+    (-2i64..=3, 0usize..2, prop_oneof![Just(0u8), Just(2u8)], any::<u64>()).prop_map(|(d, lead, mode, seed)| LongSpec { total: (1_000_000 + d) as usize, lead, mode, j: 10, seed })
 }
 
 fn check15_long(spec: &LongSpec) -> Verdict {
